@@ -56,4 +56,159 @@ AcceptTagNextMod(w, k, cp, dead, o) ==
   IF dead THEN o.k \in {"panic", "none"}
   ELSE IF cp THEN cont \/ o.k \in {"panic", "none"}
   ELSE cont
+
+\* ======================================================================================
+\* Tag kinds of the boot information (Multiboot2 specification 3.6)
+\* ======================================================================================
+\* field: name, offset from the tag start, stored width, width of the accessor's return type
+F(n, off, w, rw) == [n |-> n, off |-> off, w |-> w, rw |-> rw]
+\* sized kind: wire = exact byte count of the tag; the Rust struct occupies RoundUp8(wire)
+SizedK(id, wire, fields) ==
+  [id |-> id, dst |-> FALSE, wire |-> wire, base |-> wire, elem |-> 1, fields |-> fields]
+\* dynamically sized kind: fixed part `base`, then elements of `elem` bytes up to the tag size
+DstK(id, base, elem, fields) ==
+  [id |-> id, dst |-> TRUE, wire |-> base, base |-> base, elem |-> elem, fields |-> fields]
+
+VbeCtrl == 16      \* offset of the 512-byte VBE control information inside the tag
+VbeMode == 528     \* offset of the 256-byte VBE mode information
+VbeFields == <<
+  F("mode", 8, 2, 2), F("interface_segment", 10, 2, 2), F("interface_offset", 12, 2, 2),
+  F("interface_length", 14, 2, 2),
+  F("ci.signature", VbeCtrl + 0, 4, 4), F("ci.version", VbeCtrl + 4, 2, 2),
+  F("ci.oem_string_ptr", VbeCtrl + 6, 4, 4), F("ci.capabilities", VbeCtrl + 10, 4, 4),
+  F("ci.mode_list_ptr", VbeCtrl + 14, 4, 4), F("ci.total_memory", VbeCtrl + 18, 2, 2),
+  F("ci.oem_software_revision", VbeCtrl + 20, 2, 2), F("ci.oem_vendor_name_ptr", VbeCtrl + 22, 4, 4),
+  F("ci.oem_product_name_ptr", VbeCtrl + 26, 4, 4), F("ci.oem_product_revision_ptr", VbeCtrl + 30, 4, 4),
+  F("mi.mode_attributes", VbeMode + 0, 2, 2), F("mi.window_a_attributes", VbeMode + 2, 1, 1),
+  F("mi.window_b_attributes", VbeMode + 3, 1, 1), F("mi.window_granularity", VbeMode + 4, 2, 2),
+  F("mi.window_size", VbeMode + 6, 2, 2), F("mi.window_a_segment", VbeMode + 8, 2, 2),
+  F("mi.window_b_segment", VbeMode + 10, 2, 2), F("mi.window_function_ptr", VbeMode + 12, 4, 4),
+  F("mi.pitch", VbeMode + 16, 2, 2), F("mi.resolution.0", VbeMode + 18, 2, 2),
+  F("mi.resolution.1", VbeMode + 20, 2, 2), F("mi.character_size.0", VbeMode + 22, 1, 1),
+  F("mi.character_size.1", VbeMode + 23, 1, 1), F("mi.number_of_planes", VbeMode + 24, 1, 1),
+  F("mi.bpp", VbeMode + 25, 1, 1), F("mi.number_of_banks", VbeMode + 26, 1, 1),
+  F("mi.memory_model", VbeMode + 27, 1, 1), F("mi.bank_size", VbeMode + 28, 1, 1),
+  F("mi.number_of_image_pages", VbeMode + 29, 1, 1),
+  F("mi.red_field.size", VbeMode + 31, 1, 1), F("mi.red_field.position", VbeMode + 32, 1, 1),
+  F("mi.green_field.size", VbeMode + 33, 1, 1), F("mi.green_field.position", VbeMode + 34, 1, 1),
+  F("mi.blue_field.size", VbeMode + 35, 1, 1), F("mi.blue_field.position", VbeMode + 36, 1, 1),
+  F("mi.reserved_field.size", VbeMode + 37, 1, 1), F("mi.reserved_field.position", VbeMode + 38, 1, 1),
+  F("mi.direct_color_attributes", VbeMode + 39, 1, 1), F("mi.framebuffer_base_ptr", VbeMode + 40, 4, 4),
+  F("mi.offscreen_memory_offset", VbeMode + 44, 4, 4), F("mi.offscreen_memory_size", VbeMode + 48, 2, 2) >>
+
+InfoKindNames == {"end", "cmdline", "bootloader", "module", "meminfo", "bootdev", "mmap", "vbe",
+                  "framebuffer", "elf", "apm", "efi32", "efi64", "smbios", "rsdpv1", "rsdpv2",
+                  "network", "efi_mmap", "efi_bs", "efi32_ih", "efi64_ih", "load_base_addr"}
+
+InfoKind(name) ==
+  CASE name = "end"        -> SizedK(0, 8, <<>>)
+    [] name = "cmdline"    -> DstK(1, 8, 1, <<>>)
+    [] name = "bootloader" -> DstK(2, 8, 1, <<F("typ()", 0, 4, 4), F("size()", 4, 4, 8)>>)
+    [] name = "module"     -> DstK(3, 16, 1, <<F("start_address", 8, 4, 4), F("end_address", 12, 4, 4)>>)
+    [] name = "meminfo"    -> SizedK(4, 16, <<F("memory_lower", 8, 4, 4), F("memory_upper", 12, 4, 4)>>)
+    [] name = "bootdev"    -> SizedK(5, 20, <<F("biosdev", 8, 4, 4), F("slice", 12, 4, 4), F("part", 16, 4, 4)>>)
+    [] name = "mmap"       -> DstK(6, 16, 24, <<F("entry_size", 8, 4, 4), F("entry_version", 12, 4, 4)>>)
+    [] name = "vbe"        -> SizedK(7, 784, VbeFields)
+    [] name = "framebuffer" -> DstK(8, 32, 1, <<F("address", 8, 8, 8), F("pitch", 16, 4, 4), F("width", 20, 4, 4),
+                                                F("height", 24, 4, 4), F("bpp", 28, 1, 1)>>)
+    [] name = "elf"        -> DstK(9, 20, 1, <<F("number_of_sections", 8, 4, 4), F("entry_size", 12, 4, 4),
+                                              F("shndx", 16, 4, 4)>>)
+    [] name = "apm"        -> SizedK(10, 28, <<F("version", 8, 2, 2), F("cseg", 10, 2, 2), F("offset", 12, 4, 4),
+                                              F("cset_16", 16, 2, 2), F("dseg", 18, 2, 2), F("flags", 20, 2, 2),
+                                              F("cseg_len", 22, 2, 2), F("cseg_16_len", 24, 2, 2),
+                                              F("dseg_len", 26, 2, 2)>>)
+    [] name = "efi32"      -> SizedK(11, 12, <<F("sdt_address", 8, 4, 8)>>)
+    [] name = "efi64"      -> SizedK(12, 16, <<F("sdt_address", 8, 8, 8)>>)
+    [] name = "smbios"     -> DstK(13, 16, 1, <<F("major", 8, 1, 1), F("minor", 9, 1, 1)>>)
+    [] name = "rsdpv1"     -> SizedK(14, 28, <<F("revision", 23, 1, 1), F("rsdt_address", 24, 4, 8)>>)
+    [] name = "rsdpv2"     -> SizedK(15, 44, <<F("revision", 23, 1, 1), F("xsdt_address", 32, 8, 8),
+                                              F("ext_checksum", 40, 1, 1)>>)
+    [] name = "network"    -> DstK(16, 8, 1, <<>>)
+    [] name = "efi_mmap"   -> DstK(17, 16, 1, <<>>)
+    [] name = "efi_bs"     -> SizedK(18, 8, <<>>)
+    [] name = "efi32_ih"   -> SizedK(19, 12, <<F("image_handle", 8, 4, 8)>>)
+    [] name = "efi64_ih"   -> SizedK(20, 16, <<F("image_handle", 8, 8, 8)>>)
+    [] name = "load_base_addr" -> SizedK(21, 12, <<F("load_base_addr", 8, 4, 4)>>)
+
+HdrFields == <<F("typ", 0, 4, 4), F("size", 4, 4, 4)>>
+FieldsOf(K) == HdrFields \o K.fields
+FieldNamed(K, n) == LET S == {i \in 1..Len(FieldsOf(K)) : FieldsOf(K)[i].n = n} IN
+                    IF S = {} THEN [n |-> "?", off |-> 0, w |-> 0, rw |-> 0] ELSE FieldsOf(K)[CHOOSE i \in S : TRUE]
+
+\* table sanity (checked by TLC in MC_Tables): fields inside the fixed part, pairwise disjoint
+FieldsWellFormed(K) ==
+  /\ \A i \in 1..Len(K.fields) : (K.fields[i].off >= 8 \/ K.id = 2) /\ K.fields[i].off + K.fields[i].w <= K.base
+                                 /\ K.fields[i].rw >= K.fields[i].w
+  /\ \A i, j \in 1..Len(K.fields) :
+        i < j => \/ K.fields[i].off + K.fields[i].w <= K.fields[j].off
+                 \/ K.fields[j].off + K.fields[j].w <= K.fields[i].off
+                 \/ (K.id = 2)                      \* bootloader: typ()/size() re-read the header
+
+\* ---- typed getters (C04 / C05 / C15) ---------------------------------------------------
+\* first tag of type number id in walk order; the getter panics iff the walk panics first
+FindSpec(w, id) ==
+  LET i == FirstOfType(w, U32Bytes(id)) IN
+  IF i > 0 THEN [k |-> "found", it |-> w.items[i]]
+  ELSE IF w.fin = "panic" THEN [k |-> "panic"] ELSE [k |-> "absent"]
+
+\* what viewing walk item `it` as kind K must do:  "must" (a view), "panic", or "free" (either)
+ViewSpec(K, it) ==
+  IF K.dst THEN (IF it.size < K.base \/ (it.size - K.base) % K.elem # 0 THEN "panic" ELSE "must")
+  ELSE IF it.size = K.wire THEN "must" ELSE "free"
+
+IsView(o, it) == o.k = "some" /\ o.v.at = it.at /\ o.v.sv = RoundUp8(it.size)
+ViewRec(it) == [at |-> it.at, sv |-> RoundUp8(it.size)]
+
+\* the abstract result of a plain typed getter:  [k: absent | panic | must | free, it]
+GetSpec(mem, name) ==
+  LET K == InfoKind(name)  f == FindSpec(InfoWalk(mem), K.id) IN
+  IF f.k # "found" THEN f
+  ELSE LET vs == ViewSpec(K, f.it) IN
+       IF vs = "panic" THEN [k |-> "panic"] ELSE [k |-> vs, it |-> f.it]
+
+\* ---- framebuffer type decoding ------------------------------------------------------------
+FbBase == 32
+\* result of buffer_type() on framebuffer item `it`
+FbTypeSpec(mem, it) ==
+  LET b == mem[it.at + 29 + 1]
+      blen == it.size - FbBase IN
+  IF b >= 3 THEN [k |-> "err", v |-> <<b>>]
+  ELSE IF b = 2 THEN Ok([t |-> "text"])
+  ELSE IF b = 1 THEN (IF blen < 6 THEN Panic ELSE Ok([t |-> "rgb", v |-> Bytes(mem, it.at + FbBase, 6)]))
+  ELSE IF blen < 2 THEN Panic
+       ELSE LET n == U16At(mem, it.at + FbBase) IN
+            IF 2 + 3 * n > blen THEN Panic            \* a palette must lie inside the tag (C01)
+            ELSE Ok([t |-> "indexed", at |-> it.at + FbBase + 2, n |-> n, len |-> 3 * n])
+
+AcceptFbType(s, o) ==
+  CASE s.k = "panic" -> o.k = "panic"
+    [] s.k = "err" -> o.k = "err" /\ (o.v = s.v \/ o.v = <<>>)     \* <<>>: the byte is not observable
+    [] OTHER -> /\ o.k = "ok" /\ o.v.t = s.v.t
+                /\ (s.v.t = "rgb" => o.v.v = s.v.v)
+                /\ (s.v.t = "indexed" => o.v.at = s.v.at /\ o.v.n = s.v.n /\ o.v.len = s.v.len)
+
+\* ---- strings (C17) ----------------------------------------------------------------------------
+\* b = the bytes [base, size) of the tag
+StrSpec(b, strAt) ==
+  LET z == FirstNul(b) IN
+  IF z = 0 THEN Err("MissingNul")
+  ELSE IF ~Utf8Valid(SubSeq(b, 1, z - 1)) THEN Err("Utf8")
+  ELSE Ok([at |-> strAt, len |-> z - 1])
+AcceptStr(s, o) ==
+  IF s.k = "err" THEN o.k = "err" /\ o.e = s.e
+  ELSE o.k = "ok" /\ o.v.at = s.v.at /\ o.v.len = s.v.len
+
+\* ---- memory map (C04) -----------------------------------------------------------------------
+AreaSize == 24
+MmapAreasSpec(mem, it) ==
+  IF Bytes(mem, it.at + 8, 4) # U32Bytes(AreaSize) THEN Panic
+  ELSE [k |-> "ref", at |-> it.at + 16, n |-> (it.size - 16) \div AreaSize, len |-> it.size - 16]
+AcceptRef(s, o) ==
+  IF s.k = "panic" THEN o.k = "panic"
+  ELSE o.k = "ref" /\ o.at = s.at /\ o.n = s.n /\ o.len = s.len
+
+\* ---- RSDP checksums ------------------------------------------------------------------------------
+BoolVal(b) == Val(<<IF b THEN 1 ELSE 0>>)
+RsdpV1Len == 20
+RsdpV2Max == 36
 =============================================================================
